@@ -68,6 +68,8 @@ def case(cid, clause, mode, ra, rb, dtype="float64", rtol=None, atol=None, seq="
     dt = np.dtype(dtype)
     if seq == "steps":
         sa, sb = steps_of(ra["t"]), steps_of(rb["t"], negate=negate_b)
+    elif seq == "rows-events":       # recorded rows and events only (no dense samples: one of the twins may keep no dense output)
+        sa, sb = rows_of(dict(ra, mids=[])), rows_of(dict(rb, mids=[]))
     else:
         sa, sb = rows_of(ra), rows_of(rb)
     ia, ib = intern_seqs(sa, sb)
